@@ -49,7 +49,15 @@ pub fn decode(u: &mut Bytes) -> Case {
     }
     let max_size = [100_000u64, 1, 120, 250, 400][u.choice(5)];
     let max_files = 1 + u.choice(4);
-    Case { near_midnight, phase_ms, seconds, max_size, max_files, reuse_searcher: u.choice(4) == 3, crash: u.choice(3) != 0, order_seed: u.tail_u8() as u64 * 256 + u.tail_u8() as u64 }
+    let reuse_searcher = u.choice(4) == 3;
+    let crash = u.choice(3) != 0;
+    let order_seed = u.tail_u8() as u64 * 256 + u.tail_u8() as u64;
+    // an eighth of the histories is long enough for the file number of one day to pass 9 (.9 -> .10) when every second rolls
+    let extra = [0usize, 0, 0, 0, 0, 0, 0, 6][u.tail_choice(8)];
+    for _ in 0..extra {
+        seconds.push((1, vec![u.tail_choice(3)]));
+    }
+    Case { near_midnight, phase_ms, seconds, max_size, max_files, reuse_searcher, crash, order_seed }
 }
 
 #[derive(Debug, Clone, PartialEq)]
@@ -388,7 +396,7 @@ impl Property for C19 {
         vec![("search_files", 600_000, 600)]
     }
     fn rule(&self) -> String {
-        "bytes -> write history (writer created on an ordinary day or 3 s before UTC midnight, 1-8 written seconds with gaps 1..7 s / 61 s / a day, 1-4 items per second over 3 resources incl. one whose name contains the separator, single_file_max_size in {1,120,250,400,100000}, max_file_count 1..4), fresh searcher per query or one reused (then the whole query list is asked three times: begins ascending, descending and in a generated shuffled order, since what a reused searcher caches depends on the order); queries are enumerated exhaustively per history: every (begin, end, resource | \"\") over the written seconds (plus begin one second earlier, end beyond the last) and every (begin, max_lines 1..2*items); crash points = prefixes of the journalled byte stream the writer issued (file creations/removals, index-entry bytes, line bytes in program order): every operation boundary, every interior byte of every index entry and sampled (quick: 24 per history, thorough: all) interior line bytes; oracle: physical placement and retention from the journal, semantics from the statement; non-trivial = history spans >= 2 files and (crash mode) some cut falls inside an index entry or a line; distinct = distinct decoded histories".into()
+        "bytes -> write history (writer created on an ordinary day or 3 s before UTC midnight, 1-8 (an eighth of the histories: 7-14, so that file numbers pass 9) written seconds with gaps 1..7 s / 61 s / a day, 1-4 items per second over 3 resources incl. one whose name contains the separator, single_file_max_size in {1,120,250,400,100000}, max_file_count 1..4), fresh searcher per query or one reused (then the whole query list is asked three times: begins ascending, descending and in a generated shuffled order, since what a reused searcher caches depends on the order); queries are enumerated exhaustively per history: every (begin, end, resource | \"\") over the written seconds (plus begin one second earlier, end beyond the last) and every (begin, max_lines 1..2*items); crash points = prefixes of the journalled byte stream the writer issued (file creations/removals, index-entry bytes, line bytes in program order): every operation boundary, every interior byte of every index entry and sampled (quick: 24 per history, thorough: all) interior line bytes; oracle: physical placement and retention from the journal, semantics from the statement; non-trivial = history spans >= 2 files and (crash mode) some cut falls inside an index entry or a line; distinct = distinct decoded histories".into()
     }
     fn assumptions(&self) -> Vec<String> {
         vec![
